@@ -220,14 +220,7 @@ impl Gen {
     }
 
     fn gen_param_ty(&mut self) -> Ty {
-        // open finding (return-type dispatch on a nil guard): no parameter of type `T | []`
-        for _ in 0..6 {
-            let t = self.gen_param_ty0();
-            if !(t.contains_nil() && !t.is_nil()) {
-                return t;
-            }
-        }
-        Ty::Int
+        self.gen_param_ty0()
     }
 
     fn gen_param_ty0(&mut self) -> Ty {
@@ -296,7 +289,7 @@ impl Gen {
             // consume the verdict
             let prev_verdict =
                 chains.last().map(|c: &Chain| c.pat.is_some() || matches!(c.terms.last(), Some(Term::Match(_)))).unwrap_or(false);
-            self.fresh_start = prev_verdict || (i == 0 && self.fresh_start);
+            let _ = prev_verdict;
             let (c, ty, pend, r) = self.gen_step(env, &input, d, tail && is_last, cx, is_last);
             self.fresh_start = false;
             chains.push(c);
@@ -984,7 +977,6 @@ impl Gen {
                 benv.settle(&pending);
                 benv.kill_pending();
                 let may_nil = cty.contains_nil();
-                self.fresh_start = true;
                 let more = self.gen_seq(&mut benv, &cty.without_nil(), d, tail_cond, cx, 2);
                 self.fresh_start = false;
                 cond.extend(more.chains);
@@ -1163,8 +1155,7 @@ impl Gen {
             }
         }
         let irref = pat_binds(&pat, ty).is_some() && pat_irrefutable(&pat, ty);
-        // the compiler types the verdict as `Ok | []` whenever the matched type contains nil
-        let vty = if irref && !ty.contains_nil() { Ty::ok() } else { Ty::ok().with_nil() };
+        let vty = verdict_type(&pat, ty, irref);
         (pat, out, irref, vty)
     }
 
@@ -1218,7 +1209,7 @@ impl Gen {
                         }
                     }
                 };
-                if t.is_never() || !type_test_decided(&t, ty) {
+                if t.is_never() || !type_test_decided(&t, ty) || !ty.variants().iter().any(|x| x.sub(&t)) {
                     return self.lit_pat_for(&v);
                 }
                 if self.chance(1, 2) && matches!(t, Ty::Int | Ty::Bin | Ty::Union(_)) {
@@ -1353,6 +1344,18 @@ impl Gen {
             }
             _ => Pat::Wild,
         }
+    }
+}
+
+/// Static type of a match verdict, over-approximating the compiler's: it types the verdict `Ok` only
+/// when the pattern has no run-time requirement at all, and as `Ok | []` whenever the matched type
+/// contains nil (F25) — and in some more cases that are not worth mirroring (e.g. `=Ok` on a flow
+/// narrowed to `Ok`). So: `Ok` only for a bare binder / placeholder on a nil-free type.
+pub fn verdict_type(pat: &Pat, ty: &Ty, irrefutable: bool) -> Ty {
+    if irrefutable && !ty.contains_nil() && matches!(pat, Pat::Bind(_) | Pat::Wild) {
+        Ty::ok()
+    } else {
+        Ty::ok().with_nil()
     }
 }
 
